@@ -981,7 +981,6 @@ func checkBBC(p *core.Program, r *core.Report) {
 	r.Check(okMtu, "bbc/"+fname(npt)+"/payload-mtu", "the per-fragment payload size is the modem's MTU minus the 2 header bytes", p.Pos(npt.Pos()), "", "mtu is not reduced by fragmentIdentifierSize")
 }
 
-
 // storedFrom: addr is a local cell into which v is stored (err = call(...)).
 func storedFrom(addr ssa.Value, v ssa.Value) bool {
 	a, ok := addr.(*ssa.Alloc)
